@@ -221,6 +221,18 @@ def w_loopback(ctx: core.Ctx, arg):
         wsd._networking_thread = thread
         wsd._server_started = True
         own_kinds = []
+        # hook at the moment a transmission is put on the send queue: from now on the send thread may transmit it and multicast may loop
+        # it back - the id of the message must already be among the ids the node ignores
+        enqueued_unknown = []
+        real_put = thread._send_queue.put
+
+        def watched_put(item, *a, _real=real_put, **k):
+            mid = item.msg.created_message.p_msg.header_info_block.MessageID
+            ctx.count('loopback.enqueue_hook')
+            if item.repeat == 1 and mid not in thread._known_message_ids:
+                enqueued_unknown.append(mid)
+            return _real(item, *a, **k)
+        thread._send_queue.put = watched_put
         # history of the node: it has already seen `prefill` distinct foreign messages (the memory of known ids holds 200)
         prefill = rng.choice([0, 0, 150, 198, 199, 200, 201, 260])
         if prefill:
@@ -284,9 +296,26 @@ def w_loopback(ctx: core.Ctx, arg):
         own = thread.multi_out_uni_in_out.sent
         own_ids = set()
         feed = []
+        per_msg = {}
         for t, data, addr in own:
-            own_ids.add(etree.fromstring(data).find('.//{http://www.w3.org/2005/08/addressing}MessageID').text)
+            root = etree.fromstring(data)
+            mid = root.find('.//{http://www.w3.org/2005/08/addressing}MessageID').text
+            own_ids.add(mid)
             feed.append(data)
+            rec = per_msg.setdefault(mid, {'n': 0, 'addr': addr, 'action': root.find('.//{http://www.w3.org/2005/08/addressing}Action').text.rsplit('/', 1)[-1]})
+            rec['n'] += 1
+        if enqueued_unknown:
+            ctx.witness('loopback.own_message_handled.enqueue_window', 'a message was put on the send queue before its id was registered as known: '
+                        'transmitted at once and looped back by multicast it is handled as a foreign message', {'kinds': own_kinds, 'ids': enqueued_unknown[:3]})
+        if not fail_every:
+            # every message type: 1 + repeat transmissions, repeat = the value configured for its kind of destination (multicast group / unicast peer)
+            for mid, rec in per_msg.items():
+                multicast = rec['addr'][0] == '239.255.255.250'
+                want = 1 + (nt.MULTICAST_REPEAT_PARAMS if multicast else nt.UNICAST_REPEAT_PARAMS).repeat
+                ctx.count(f'wsd.transmissions_checked.{rec["action"]}.{"multicast" if multicast else "unicast"}')
+                if rec['n'] != want:
+                    ctx.witness(f'wsd.count.{rec["action"]}', f'{rec["action"]} to a {"multicast" if multicast else "unicast"} destination was transmitted '
+                                f'{rec["n"]} times, configured: 1 + {want - 1}', {'kinds': own_kinds, 'destination': list(rec['addr'])})
         ctx.count('loopback.own_datagrams', len(feed))
         # foreign messages: fresh ids, some duplicated
         foreign_ids = []
